@@ -65,6 +65,7 @@ void h_unlock_slow (void) {
 		__CPROVER_assert (vp_g.queued == queued0 && vp_g.waited == waited0 && vp_g.p_calls == p0 && vp_g.last_sem_outcome == lso0, "VP-AUX: unlock_slow leaves the waiter-side ghost alone");
 		__CPROVER_assert (!vp_g.released_with_desig || vp_g.v_calls != v0, "C02: if the release leaves MU_DESIG_WAKER set by this thread, it has woken at least one waiter");
 		__CPROVER_assert (!vp_wk.pending && vp_wk.cleared == vp_wk.posted, "C02/C04: every waiter whose flag was cleared has been posted");
+		__CPROVER_assert (!vp_cvg.spin, "VP-AUX: unlock_slow does not touch the cv ghost");
 	}
 	VP_CANARY ();
 }
